@@ -143,7 +143,9 @@ func ruleTapeHelpers(c *Ctx) {
 				}
 			}
 			nView++
-			okU = okU && data == "uintptr(Pointer(&P:b[0]))" && ln == "len(P:b)"
+			// either the string header is filled by hand, or unsafe.String(&b[0], len(b)) is returned
+			viaBuiltin := len(sp.Ret) == 1 && reCallNum.ReplaceAllString(sp.Ret[0].String(), "") == "String(&P:b[0],len(P:b))"
+			okU = okU && (viaBuiltin || data == "uintptr(Pointer(&P:b[0]))" && ln == "len(P:b)")
 		}
 		c.Check(okU && nView >= 1, "unsafeBytesToString:view", p.Pos(fd), "string header = (&b[0], len(b)); empty for an empty slice", "unsafeBytesToString does not view exactly the bytes of its argument", "every number literal")
 	} else {
